@@ -5,6 +5,7 @@ import numpy as np
 from hypothesis import strategies as st
 
 from .. import codec, conv, env, files, gen, sgy, sources
+from .. import known
 from ..core import Violation
 
 META = {
@@ -317,6 +318,10 @@ def run_case(case, ctx):
         sources.annotate(case, S)
         if case["obs"]["segyio_calls_it_regular"] and route == "irregular":
             return {"sig": None, "labels": ["irregular-looks-regular-skipped"]}
+        if route == "irregular" and known._irregular_inline_zero(case["src"]):
+            # K01 (a populated trace with inline number 0 reads as a hole): even the complete file cannot be
+            # read trace by trace, so there is no reference to compare partial files with
+            return {"sig": None, "labels": ["irregular-inline-zero-skipped"]}
         writes = record(lambda: conv.segy_convert(S.path, out, rate, bs, header_detection=case["mode"]))
     n = check_images(case, ctx, writes, out, d)
     case.pop("point", None)
